@@ -11,6 +11,7 @@ def idtOf (w : String) : Option (Option IdT) :=
   if w = "none" then some none else
   match w.splitOn "|" with
   | [n, s] => do some (some { nonce := ← optStr n, sub := ← decStr s })
+  | [n, s, a, c] => do some (some { nonce := ← optStr n, sub := ← decStr s, atHash := ← optStr a, cHash := ← optStr c })
   | _ => none
 
 def showOpt (o : Option Str) : String := match o with | none => "none" | some s => "some:" ++ encStr s
@@ -39,6 +40,12 @@ def stepLine (h : Handler) (args : List String) : Handler × String :=
         | ["begin", s, n] => do some (.begin (← decStr s) (← decStr n))
         | ["authz", s, code, ip, cp, idt] => do
           some (.authz { state := ← optStr s, code := ← optStr code, issParam := ← optStr ip, clientIdParam := ← optStr cp, idt := ← idtOf idt })
+        | ["authz", s, code, ip, cp, idt, at_] => do
+          some (.authz { state := ← optStr s, code := ← optStr code, issParam := ← optStr ip, clientIdParam := ← optStr cp, idt := ← idtOf idt,
+                         accessToken := ← optStr at_ })
+        | ["authz", s, code, ip, cp, idt, at_, aud] => do
+          some (.authz { state := ← optStr s, code := ← optStr code, issParam := ← optStr ip, clientIdParam := ← optStr cp, idt := ← idtOf idt,
+                         accessToken := ← optStr at_, audParam := ← optStr aud })
         | ["token", s, at_, idt] => do some (.token (← decStr s) { accessToken := ← decStr at_, idt := ← idtOf idt })
         | ["userinfo", s, sub] => do some (.userinfo (← decStr s) (← decStr sub))
         | _ => none
